@@ -97,7 +97,7 @@ impl Prop for C13 {
         tier.pick(16, 240)
     }
     fn mandatory(&self, tier: Tier) -> Vec<String> {
-        let mut v: Vec<String> = ["sector:512", "sector:4096", "chain:Sequential", "chain:Reversed", "chain:Random", "mini:Reversed", "mini:Random", "meta:Front", "meta:Back", "meta:Scattered", "free_sectors", "dir_shuffled", "dir_holes", "overallocated_chains", "v3_size_high_dword_garbage", "dir_name_tail_garbage", "mini_stream", "no_mini_stream", "xls_workbook_via_layout", "xls_with_vba_via_layout", "size:0", "size:4095", "size:4096", "size:4097"]
+        let mut v: Vec<String> = ["sector:512", "sector:4096", "chain:Sequential", "chain:Reversed", "chain:Random", "mini:Reversed", "mini:Random", "meta:Front", "meta:Back", "meta:Scattered", "free_sectors", "dir_shuffled", "dir_holes", "overallocated_chains", "v3_size_high_dword_garbage", "dir_name_tail_garbage", "name_differing_only_in_case", "mini_stream", "no_mini_stream", "xls_workbook_via_layout", "xls_with_vba_via_layout", "size:0", "size:4095", "size:4096", "size:4097"]
             .iter().map(|s| s.to_string()).collect();
         let _ = tier;
         v.push("difat_sectors".into());
@@ -128,6 +128,17 @@ impl Prop for C13 {
                 entries.push(Entry { name: "VBA".into(), data: None, parent: Some(st) });
                 entries.push(Entry { name: "dirx".into(), data: Some(stream_bytes(&mut rng, 700, 9)), parent: Some(st + 1) });
                 entries.push(Entry { name: "ModuleX".into(), data: Some(stream_bytes(&mut rng, 5000, 10)), parent: Some(st + 1) });
+            }
+            if rng.chance(1, 3) {
+                // a stream in another storage whose name differs from the first stream's only in
+                // case (names are unique per storage; lookups are by exact name)
+                let decoy = entries[0].name.to_uppercase();
+                if decoy != entries[0].name && !entries.iter().any(|e| e.name == decoy) {
+                    let st = entries.len();
+                    entries.push(Entry { name: "OtherStorage".into(), data: None, parent: None });
+                    entries.push(Entry { name: decoy, data: Some(stream_bytes(&mut rng, 777, 11)), parent: Some(st) });
+                    out.feat("name_differing_only_in_case");
+                }
             }
             let ctxj = json!({"unit": unit, "case": i, "sizes": entries.iter().map(|e| e.data.as_ref().map_or(-1, |d| d.len() as i64)).collect::<Vec<_>>()});
             for k in 0..4 {
